@@ -111,15 +111,18 @@ func (c *ReplayCache) IsDuplicate(data []byte, tag string) bool {
 			return true
 		}
 		return existingTag != tag
-	} else {
-		c.current[signature] = tag
 	}
 	if existingTag, ok := c.previous[signature]; ok {
+		// Keep the entry alive under the tag it was first recorded with.
+		// Recording the tag of this caller instead would let a replayer
+		// pass as a retransmission on its second attempt.
+		c.current[signature] = existingTag
 		if existingTag == EmptyTag || tag == EmptyTag {
 			return true
 		}
 		return existingTag != tag
 	}
+	c.current[signature] = tag
 	return false
 }
 
